@@ -42,6 +42,14 @@ class Run:
         cov = self.coverage
         cov['known_findings_seen'] = sorted(self.known_hits)
         cov['broken'] = self.broken
+        try:
+            lc = common.linecov_report()
+            if lc:
+                cov['implementation_lines'] = dict(
+                    note='statements of /repo/droop executed while this check ran the real code (sys.monitoring); never_executed = line ranges the comparison has not seen',
+                    files=lc, executable=sum(v['executable'] for v in lc.values()), executed=sum(v['executed'] for v in lc.values()))
+        except Exception as e:
+            cov['implementation_lines'] = dict(error=repr(e))
         common.write_evidence(self.prop, self.tier, self.seed, self.level, cov, time.time() - self.t0,
                               len(self.violations), self.assumptions)
         return 1 if self.violations else 0
@@ -104,6 +112,7 @@ def main():
     seed = int(os.environ.get('VERIF_SEED', '0') or 0)
     os.chdir(common.VERIF)
     os.makedirs(common.WORK, exist_ok=True)
+    common.linecov_start()
     import props
     if a.prop not in props.PROPS:
         print('unknown property', a.prop); sys.exit(2)
